@@ -47,11 +47,21 @@ func sortedCopy(v []string) []string {
 func TestC08Transparency(t *testing.T) {
 	vlib.SetRule("C08", "TestC08Transparency", "generated requests (7 methods, 0-4 path segments incl. percent-escapes, double and trailing slashes, raw queries, 0-6 end-to-end headers with repeated values / Cookie / Authorization / client X-Forwarded-For / Accept-Encoding, Host with and without port, bodies of 0 B-1 MiB with Content-Length or chunked) and generated response shapes (7 statuses, repeated response headers, bodies 0 B-1 MiB) through a real 2-node cluster, entering at the upstream's node or the other one, upstream = Go SDK http.Serve or the agent reverse proxy in front of a local server; oracle: the upstream recorded exactly the method, request-URI, Host, body and every sent header, the client received exactly the drawn status, headers and body; non-trivial = forwarded path with an escaped segment or a body >= 64 KiB")
 	vlib.Run(t, "C08", func(c *vlib.Case) {
-		cl, err := StartCluster(2, false, func(i int, conf *config.Config) { conf.Proxy.Timeout = 20 * time.Second })
+		// half of the clusters protect the proxy port: the client's piko token then
+		// travels in Authorization or in x-piko-authorization (leaving Authorization to the application)
+		withAuth := c.Bool("proxyAuth")
+		keys := TestKeys()
+		cl, err := StartCluster(2, false, func(i int, conf *config.Config) {
+			conf.Proxy.Timeout = 20 * time.Second
+			if withAuth {
+				conf.Proxy.Auth.HMACSecretKey = string(keys.HMAC)
+			}
+		})
 		if err != nil {
 			c.Harnessf("start cluster: %v", err)
 		}
 		defer cl.Stop()
+		c.Header["proxy_auth"] = withAuth
 		kind := c.OneOf("kind", "sdk-http", "agent-http")
 		up, err := ConnectUpstream(context.Background(), cl.Nodes[0], "u0", "e1", kind, UpstreamOpts{})
 		if err != nil {
@@ -141,6 +151,16 @@ func TestC08Transparency(t *testing.T) {
 					sent.Set("Accept-Encoding", c.OneOf("ae", "gzip", "identity", "br"))
 				case 7:
 					sent.Set("X-T-"+c.OneOf("name", "Long-Header-Name-0123456789", "c", "Case"), strings.Repeat("z", c.Int("vlen", 0, 300)))
+				}
+			}
+			if withAuth {
+				tok := "Bearer " + MintHS(keys.HMAC, nil, time.Time{})
+				if sent.Get("Authorization") != "" || c.Bool("tokenInXPikoAuthorization") {
+					// the application's own Authorization header stays; piko's token goes in its own header
+					req.Header.Set("x-piko-authorization", tok)
+					c.Class("token-in-x-piko-authorization")
+				} else {
+					sent.Set("Authorization", tok)
 				}
 			}
 			for k, vs := range sent {
@@ -266,12 +286,17 @@ func equalStrings(a, b []string) bool {
 // rawUpgrade performs an HTTP/1.1 Upgrade handshake by hand so that the case of
 // the Upgrade token is under the generator's control.
 func rawUpgrade(addr, host, token string) (net.Conn, *bufio.Reader, int, error) {
+	return rawUpgradePath(addr, host, "/ws", token, "Upgrade")
+}
+
+// rawUpgradePath is rawUpgrade with the request path and the Connection header under control.
+func rawUpgradePath(addr, host, path, token, connection string) (net.Conn, *bufio.Reader, int, error) {
 	c, err := net.DialTimeout("tcp", addr, 5*time.Second)
 	if err != nil {
 		return nil, nil, 0, err
 	}
 	_ = c.SetDeadline(time.Now().Add(20 * time.Second))
-	fmt.Fprintf(c, "GET /ws HTTP/1.1\r\nHost: %s\r\nUpgrade: %s\r\nConnection: Upgrade\r\nSec-WebSocket-Key: dGhlIHNhbXBsZSBub25jZQ==\r\nSec-WebSocket-Version: 13\r\n\r\n", host, token)
+	fmt.Fprintf(c, "GET %s HTTP/1.1\r\nHost: %s\r\nUpgrade: %s\r\nConnection: %s\r\nSec-WebSocket-Key: dGhlIHNhbXBsZSBub25jZQ==\r\nSec-WebSocket-Version: 13\r\n\r\n", path, host, token, connection)
 	br := bufio.NewReader(c)
 	resp, err := http.ReadResponse(br, &http.Request{Method: "GET"})
 	if err != nil {
